@@ -2,7 +2,7 @@
    Only statements; proofs by reference (proofs/RotateProofs.v).  Model: model/Rotate.v
    (ctrl/qryn/maintenance/rotate.go: Rotate, rotateTables, storagePolicyUpdate, forgetSetting, get/putSetting). *)
 From Coq Require Import List ZArith Bool String.
-From Qryn Require Import model.Rotate model.RotateCfg model.RotateConc model.RotateClock proofs.RotateProofs proofs.RotateCfgProofs proofs.RotateConcProofs proofs.RotateClockProofs.
+From Qryn Require Import model.Rotate model.RotateCfg model.RotateConc model.RotateClock model.RotateStamp proofs.RotateProofs proofs.RotateCfgProofs proofs.RotateConcProofs proofs.RotateClockProofs proofs.RotateStampProofs.
 Import ListNotations.
 Open Scope string_scope.
 Open Scope list_scope.
@@ -256,3 +256,69 @@ Theorem same_second_rows_tie : (exists clock rows,
   (forall clock dt, 0 < dt -> stamp_now64 clock < stamp_now64 (clock + dt)).
 Proof. split; [exact same_second_tie|exact now64_strict]. Qed.
 Print Assumptions same_second_rows_tie.
+
+(* ------------------------------------------------------------------ the whole program over the stamped rows
+   model/RotateStamp.v: Rotate with the settings table kept as rows (fingerprint, value, inserted_at = server clock at
+   the INSERT); a settings query is answered by `pick` -- any function whose answers are admissible (may_read: the value
+   of SOME row with a maximal stamp, possibly a different one at every query); the n-th statement of the history
+   advances the server clock by `dur n call succeeded`; runs are `gap` apart; faults as before (any call, with or
+   without effect). *)
+
+(* Refinement.  The clock never goes back and advances over every SELECT and every ALTER that was executed (nothing
+   is asked of INSERTs, of failed statements, of the time between runs): then from related databases (same tables, map =
+   value of the row inserted last) a run over the rows issues the same calls with the same results as Rotate.run over the
+   map, reports the same error, leaves related databases, and the stamps of every fingerprint still strictly increase.
+   So every theorem above speaks about the rows as well, whatever the server answers among ties. *)
+Theorem stamped_rows_refine_the_map : forall pick dur, pick_ok pick -> clock_mono dur -> clock_advances dur ->
+  forall cfg f gap st d, same_db (st_db st) d -> well_stamped st -> 0 <= gap ->
+  snd (srun pick dur cfg f gap st) = snd (run cfg f d) /\
+  sw_log (fst (srun pick dur cfg f gap st)) = run_log cfg f d /\
+  same_db (st_db (srun_st pick dur cfg f gap st)) (run_db cfg f d) /\
+  well_stamped (srun_st pick dur cfg f gap st).
+Proof. exact srun_sim. Qed.
+Print Assumptions stamped_rows_refine_the_map.
+
+(* "A run interrupted at any statement is completed by the next run", over the rows: after ANY history of runs with
+   changing configurations, each interrupted at any call (also between the row that empties a record and the first
+   ALTER, also by an INSERT that took effect but reported an error), one uninterrupted run succeeds and afterwards, for
+   every configured group, EVERY answer the server may give to the settings query is the desired value and every table
+   of the group carries it. *)
+Theorem interrupted_then_completed_over_stamped_rows : forall pick dur, pick_ok pick -> clock_mono dur -> clock_advances dur ->
+  forall h cfg gap st, well_stamped st -> consistent (abs (st_db st)) -> gaps_ok h -> 0 <= gap ->
+  let r := srun pick dur cfg None gap (srun_hist pick dur h st) in
+  snd r = true /\ sconverged cfg (sw_db (fst r)) /\ well_stamped (state_of (fst r)).
+Proof. exact stamped_completed. Qed.
+Print Assumptions interrupted_then_completed_over_stamped_rows.
+
+(* ... and the run after it with the same configuration issues the eight settings queries and no other statement. *)
+Theorem repeated_run_silent_over_stamped_rows : forall pick dur, pick_ok pick -> clock_mono dur -> clock_advances dur ->
+  forall h cfg gap gap' st, well_stamped st -> gaps_ok h -> 0 <= gap -> 0 <= gap' ->
+  let st1 := srun_st pick dur cfg None gap (srun_hist pick dur h st) in
+  sw_log (fst (srun pick dur cfg None gap' st1)) = rev (map (fun g => (CGet g, true)) groups) /\
+  snd (srun pick dur cfg None gap' st1) = true.
+Proof. exact stamped_silent. Qed.
+Print Assumptions repeated_run_silent_over_stamped_rows.
+
+(* A clock that is merely non-decreasing is NOT enough, and both halves of clock_advances are needed.
+   (1) The clock advances over every ALTER but not over a SELECT (runs follow each other at once), first-inserted row
+   wins a tie: B applied; A interrupted right after it recorded the samples_v3 group; B interrupted after MODIFY TTL of
+   samples_v3 -- its row emptying the record ties with the record; the uninterrupted run with A then succeeds, is
+   answered A's record (an admissible answer), skips the group and leaves B's TTL on samples_v3.
+   (2) The clock advances over every SELECT but not over an ALTER (runs five seconds apart): the row emptying a record
+   and the row recording the applied value tie; A, B applied; C interrupted after its first MODIFY TTL (its query was
+   answered the empty row: nothing emptied); the uninterrupted run with B is answered B, skips, samples_v3 keeps C's TTL.
+   With now64(9) such ties need two statements of one group inside the same nanosecond of the server clock. *)
+Theorem nondecreasing_clock_is_not_enough :
+  (pick_ok wt1_pick /\ clock_mono wt1_dur /\ (forall n c b, is_alter c = true -> 0 < wt1_dur n c b) /\
+   well_stamped st0 /\ consistent (abs (st_db st0)) /\ gaps_ok wt1_hist /\
+   snd (srun wt1_pick wt1_dur wt_a None 0 (srun_hist wt1_pick wt1_dur wt1_hist st0)) = true /\
+   sd_ttl (st_db wt1_final) SamplesV3 = desired wt_b TtlSamples /\
+   may_read (sd_rows (st_db wt1_final)) (key TtlSamples) (desired wt_a TtlSamples) /\
+   ~ sconverged wt_a (st_db wt1_final)) /\
+  (pick_ok wt2_pick /\ clock_mono wt2_dur /\ (forall n g b, 0 < wt2_dur n (CGet g) b) /\
+   well_stamped st0 /\ consistent (abs (st_db st0)) /\ gaps_ok wt2_hist /\
+   snd (srun wt2_pick wt2_dur wt_b None 5000000000 (srun_hist wt2_pick wt2_dur wt2_hist st0)) = true /\
+   sd_ttl (st_db wt2_final) SamplesV3 = desired wt_c TtlSamples /\
+   ~ sconverged wt_b (st_db wt2_final)).
+Proof. split; [exact wt1_diverges|exact wt2_diverges]. Qed.
+Print Assumptions nondecreasing_clock_is_not_enough.
